@@ -455,16 +455,8 @@ Definition tap_index (nin nout idx_ : nat) (pv : prevouts) (ty : N) : outcome un
 (* ================================================================================================ TaprootBuilder as the API and serde see it *)
 Definition triv (_ : bytes) : bytes := [].
 Definition api_builder (items : list item) : Taproot.res berr br := Taproot.run triv triv items [].
-(* TaprootBuilder::finalize since c723f02 (which repaired F16): `.pop().ok_or(EmptyTree)?.ok_or(IncompleteTree)?`.  Model/Taproot.v still
-   carries the `expect` of the unrepaired code (its owner updates it on the C15 branch); until that is merged the repaired function is
-   written here, and `finalize_p_is_taproot` (Proofs) shows the two agree on every state whose last slot is filled — all API-built ones. *)
-Definition finalize_fixed (b : br) : Taproot.outcome spendinfo :=
-  if (1 <? length b)%nat then Taproot.Fail IncompleteTree
-  else match b with
-       | [] => Taproot.Fail EmptyTree
-       | None :: _ => Taproot.Fail IncompleteTree
-       | Some n :: _ => from_node_info triv (fun _ => true) (fun _ _ => Some ([], false)) [] n end.
-Definition finalize_p (b : br) : Taproot.outcome spendinfo := finalize_fixed b.
+(* TaprootBuilder::finalize is Model/Taproot.finalize, which since c723f02 (F16 repaired) returns IncompleteTree on a trailing empty slot *)
+Definition finalize_p (b : br) : Taproot.outcome spendinfo := Taproot.finalize triv (fun _ => true) (fun _ _ => Some ([], false)) b [].
 
 (* ================================================================================================ src/pset/mod.rs: input / output count caps *)
 (* `if inputs_len > 10_000 { return Err(TooLargePset) }` then `Vec::with_capacity(inputs_len)`: count * size_of::<Input>() bytes are
